@@ -34,6 +34,8 @@ type memStore struct {
 	defaultKey []byte
 	name       string
 	email      string
+	// created lists every commit object written, in creation order
+	created []githash.Hash
 }
 
 func newMemStore() *memStore {
@@ -624,6 +626,9 @@ func (m *memStore) createCommit(treeID githash.Hash, parents []githash.Hash, mes
 	if err != nil {
 		return nil, err
 	}
+	m.mu.Lock()
+	m.created = append(m.created, gh(h))
+	m.mu.Unlock()
 	return gh(h), nil
 }
 
